@@ -400,7 +400,7 @@ func ResetRunStats() {
 	for i := 0; i <= MaxTasks; i++ {
 		tsteps[i], tcleanup[i], tinparse[i], tinject[i], tpoolHeld[i] = 0, 0, 0, 0, 0
 	}
-	opBudget = 3000000
+	opBudget = 30000000
 	// every run starts with empty simulated pools ("a GC happened"): a run's behaviour must
 	// not depend on which runs the same process executed before
 	ClearPools()
